@@ -283,7 +283,7 @@ let run_batch payload =
     let (cancel, budget) = (match mode with
         | [A "none"] -> (false, None)
         | [A "failat"; A k] -> (false, Some (nat_of_int (int_of_string k)))
-        | [A "cancelat"; A k] -> (true, Some (nat_of_int (int_of_string k)))
+        | [A "cancelat"; A k] | [A "expireat"; A k] -> (true, Some (nat_of_int (int_of_string k)))
         | _ -> failwith "bad mode") in
     let (rs, st) = batch_authorize cancel vars en pols budget in
     let sx_of_r r =
